@@ -437,6 +437,31 @@ func jsonNilProbes() *ev.Failure {
 			fail = ev.Failf("C18/nil-unmarshal/typed-nil", "unmarshaling into a typed nil returned no error")
 		}
 	}()
+	if fail != nil {
+		return fail
+	}
+	// every typed nil of the marshal probes, with no option, one option and all options
+	optSets := map[string][]csproto.JSONOption{"no-options": nil, "one-option": {csproto.JSONAllowUnknownFields(true)},
+		"all-options": {csproto.JSONIndent(" "), csproto.JSONUseEnumNumbers(true), csproto.JSONIncludeZeroValues(true), csproto.JSONAllowUnknownFields(false), csproto.JSONAllowPartialMessages(true)}}
+	for name, v := range probes {
+		for on, opts := range optSets {
+			for _, doc := range []string{"{}", "null", `"x"`, "[]"} {
+				func() {
+					defer func() {
+						if r := recover(); r != nil {
+							fail = ev.Failf("C18/nil-unmarshal-panics/"+name+"/"+on, "JSONUnmarshaler(%s, %s).UnmarshalJSON(%s) panicked: %v", name, on, doc, r)
+						}
+					}()
+					if err := csproto.JSONUnmarshaler(v, opts...).UnmarshalJSON([]byte(doc)); err == nil {
+						fail = ev.Failf("C18/nil-unmarshal/"+name+"/"+on, "unmarshaling %s into %s (%s) returned no error", doc, name, on)
+					}
+				}()
+				if fail != nil {
+					return fail
+				}
+			}
+		}
+	}
 	return fail
 }
 
@@ -457,7 +482,7 @@ func jsonTypes() []*MsgType {
 	return out
 }
 
-const ruleC18 = "case = (message type of the corpus for gogo / Google v1 (legacy) / Google v2, plain and fast-marshal; value incl. enums, 64-bit integers, bytes, maps, oneofs, well-known types as fields and - Value (every kind incl. null), Struct, ListValue, Timestamp, wrappers of Google v2 and gogo - as top-level messages; the 2^3 marshal option combinations, each adapter call with its own options only or (1 in 2) with all five options in one of the 120 orders (1 in 2 of those preceded by the same five options set to the opposite values: the later occurrence is in effect); indent in {\"\", \" \", \"  \", \"\\t\", \" \\t\"}; JSON with/without an injected unknown key x AllowUnknownFields (also for documents nested 99..400 levels deep through recursive types); JSON with/without a required field - the message's own or one of a child, incl. proto2 children of a proto3 message - x AllowPartialMessages (Google v2); 1 in 3 right after a MarshalJSON call that the runtime refuses (out-of-range Timestamp / Duration, also as a later list element; required field missing in a child)); oracle: json.Valid, adapter round trip == original, the OWNING runtime's JSON decoder accepts the output and decodes the original, structural probes for every option, nil => (nil, nil) (untyped nil and typed nil pointers of every corpus package and of the well-known types that implement json.Marshaler themselves), unmarshal into nil => error; non-trivial = message with >= 1 enum / 64-bit / bytes / map field set and >= 1 option set; distinct by case content"
+const ruleC18 = "case = (message type of the corpus for gogo / Google v1 (legacy) / Google v2, plain and fast-marshal; value incl. enums, 64-bit integers, bytes, maps, oneofs, well-known types as fields and - Value (every kind incl. null), Struct, ListValue, Timestamp, wrappers of Google v2 and gogo - as top-level messages; the 2^3 marshal option combinations, each adapter call with its own options only or (1 in 2) with all five options in one of the 120 orders (1 in 2 of those preceded by the same five options set to the opposite values: the later occurrence is in effect); indent in {\"\", \" \", \"  \", \"\\t\", \" \\t\"}; JSON with/without an injected unknown key x AllowUnknownFields (also for documents nested 99..400 levels deep through recursive types); JSON with/without a required field - the message's own or one of a child, incl. proto2 children of a proto3 message - x AllowPartialMessages (Google v2); 1 in 3 right after a MarshalJSON call that the runtime refuses (out-of-range Timestamp / Duration, also as a later list element; required field missing in a child)); oracle: json.Valid, adapter round trip == original, the OWNING runtime's JSON decoder accepts the output and decodes the original, structural probes for every option, nil => (nil, nil) (untyped nil and typed nil pointers of every corpus package and of the well-known types that implement json.Marshaler themselves), unmarshal into nil => error (the same nil values x {no option, one option, all options} x four documents); non-trivial = message with >= 1 enum / 64-bit / bytes / map field set and >= 1 option set; distinct by case content"
 
 // ---- well-known types as TOP-LEVEL messages (their JSON form is not an object: null, number, string, array) ----
 
